@@ -11,7 +11,8 @@ RULE = ('C01/C10 DAGs (shared dependencies with 1-4 dependents, requested nodes 
         'equals exactly {successful finished d : some direct dependent of d in this run is unfinished} - i.e. released as soon as '
         'the last dependent finished and never earlier; (3) get_result of a requested task happens before its release; (4) at '
         'close after a normal return the map is empty, also with failures. Real serial/fork/spawn runners through the spy: after '
-        'a normal return real.get_result(t) raises KeyError for every node. Non-trivial = a dependency with >= 2 dependents '
+        'a normal return real.get_result(t) raises KeyError for every node, and every read of a successful dependency inside run() '
+        'yielded its value; engine "scale": the same on fork runs that release 130-220 results before a chain of dependents starts. Non-trivial = a dependency with >= 2 dependents '
         'finishing in different batches, or a release step involving a failed node. Distinct = hash of (engine, spec).')
 ASSUMPTIONS = ['"as soon as" is checked at the granularity of one processed completion (the next line labtech executes after remove_results)']
 
@@ -19,6 +20,10 @@ ASSUMPTIONS = ['"as soon as" is checked at the granularity of one processed comp
 def check(spec: dict) -> core.CaseResult:
     obs, ex, gated = dagprop.run_spec(spec)
     findings, nt = oracles.c17_retention(spec, obs, ex)
+    # availability, seen from inside run(): a successful dependency's result can be read by every dependent that starts
+    for f_ in oracles.c02_ordering(spec, obs, ex):
+        if f_.signature.startswith('C02:read-of-successful-dependency-raised'):
+            findings.append(core.Finding('C17:result-of-a-finished-dependency-not-available-to-its-dependent', f_.detail))
     f = specs.features(spec)
     labels = dagprop.base_labels(spec, f, gated)
     return dagprop.result(obs, findings, nt, labels, prop='C17')
@@ -30,13 +35,46 @@ def judge_obs(case: dict, obs) -> core.CaseResult:
     return core.CaseResult(findings=findings, nontrivial=nt or len(case['nodes']) >= 3, labels=('exhaustive-small',), summary=None)
 
 
+def scale_spec():
+    """Runs that release hundreds of results: 130-220 leaves gathered by one or two readers, followed by a chain of dependents."""
+    from hypothesis import strategies as st
+
+    @st.composite
+    def gen(draw):
+        n = draw(st.integers(130, 220))
+        nodes = [{'id': i, 'type': draw(st.sampled_from(['NN', 'Z'])), 'name': f'n{i}', 'mode': 'ok', 'read': True, 'payload': None, 'deps': {'s': None}}
+                 for i in range(n)]
+        cut = draw(st.integers(1, n - 1)) if draw(st.booleans()) else n
+        gathers = []
+        for lo, hi in ((0, cut), (cut, n)):
+            if lo < hi:
+                gathers.append(len(nodes))
+                nodes.append({'id': len(nodes), 'type': 'NN', 'name': f'n{len(nodes)}', 'mode': 'ok', 'read': True, 'payload': None,
+                              'deps': {'list': [{'ref': j, 'fresh': False} for j in range(lo, hi)]}})
+        prev = gathers
+        for _ in range(draw(st.integers(1, 3))):
+            nodes.append({'id': len(nodes), 'type': draw(st.sampled_from(['NN', 'N1'])), 'name': f'n{len(nodes)}', 'mode': 'ok', 'read': True,
+                          'payload': None, 'deps': {'list': [{'ref': j, 'fresh': False} for j in prev]}})
+            prev = [len(nodes) - 1]
+        lab = {'backend': 'fork', 'max_workers': draw(st.sampled_from([None, 8, 4])), 'continue_on_failure': True, 'bust_cache': False,
+               'storage': draw(st.sampled_from(['none', 'none', 'local'])), 'displays': False, 'context': {}}
+        return {'nodes': nodes, 'requested': [{'ref': prev[0], 'fresh': False}], 'lab': lab, 'pre_cached': [], 'schedule': []}
+    return gen()
+
+
 def plan(tier: str) -> list[dict]:
-    return list(dagprop.std_plan(tier, controlled=(11, 150, 2500), serial=(2, 40, 800), fork=(2, 20, 400), spawn=(1, 5, 80))) + dagprop.exhaustive_jobs(tier, 4)
+    q = tier == 'quick'
+    jobs = list(dagprop.std_plan(tier, controlled=(11, 150, 2500), serial=(2, 40, 800), fork=(2, 20, 400), spawn=(1, 5, 80))) + dagprop.exhaustive_jobs(tier, 4)
+    jobs.append({'engine': 'scale:fork', 'n': 3 if q else 40, 'hashseed': 6})
+    return jobs
 
 
 def run_job(rec: core.Recorder, job: dict, seed: int) -> None:
     if job['engine'] == 'exhaustive-small':
         dagprop.run_exhaustive_job(rec, job, judge_obs, failing=True, cached=False)
+        return
+    if job['engine'] == 'scale:fork':
+        core.run_hypothesis(rec, 'scale:fork', scale_spec(), check, max_examples=job['n'], seed=seed, shrink=False)
         return
     eng = job['engine']
     fail = ['raise:ValueError', 'raise:CustomErr'] + ([] if eng == 'serial' else ['kill9'])
